@@ -24,16 +24,18 @@ claim("C03", P,
       "DESIGN.md §3 C03, §9")
 claim("C04", P,
       "_traverse_dfs is proved for trees of any size and shape, any start node and arbitrary callbacks (three loops with invariants, ghost observation state): enter exactly once per subtree node and never outside, after the parent and with the parent's "
-      "value; leave exactly once after all children with exactly their values in a list allocated for that call; returns the start node's value; swc_utils.traverse / Tree.traverse / Tree.Node.traverse pass nodes and values through unchanged; "
-      "the traversal path is free of recursion (call-graph obligation)." + BOUNDED,
-      ASSUME + "tree induction (entered nodes cover the subtree) is an assumed lemma instance; termination of the stack loop is not proved (10^5-node chains run in the bounded stand-in).", "DESIGN.md §3 C04, §9")
+      "value; leave exactly once after all children with exactly their values in a list allocated for that call; returns the start node's value; every callback call is proved, at the call, to be an enabled event "
+      "(the Step relation of lean/TraverseRule.lean); the same postconditions are re-proved over the log of the calls actually made on every parent table of at most 4 nodes x every start node with arbitrary callbacks "
+      "(loops executed, not cut); swc_utils.traverse (mode dispatch: ValueError and no traversal for any mode but dfs; omitted arguments reach the dfs as its defaults) / Tree.traverse / Tree.Node.traverse pass the whole table, "
+      "the start node, nodes and values through unchanged; the traversal path is free of recursion (call-graph obligation)." + BOUNDED,
+      ASSUME + "tree induction (entered nodes cover the subtree) is a lemma schema proved in Lean, instantiated by inspection; termination of the stack loop is not proved (10^5-node chains run in the bounded stand-in).", "DESIGN.md §3 C04, §9; docs/w3/c04.md")
 claim("C05", P,
       "sort_nodes_impl is proved for tables of any length with arbitrary distinct ids in any row order (ghost slot permutation): the returned index array is a bijection, ids 0..n-1, root 0, every parent smaller than its child, "
       "parent relation preserved; sort_nodes_ / _sort_tree / sort_tree permute EVERY column (extras included) by that bijection; sort_tree leaves its input untouched and returns fresh storage." + BOUNDED,
       ASSUME + "two assumed induction lemmas (tree induction; count of a singleton mask); idempotence up to sibling order and read_swc(sort_nodes=True) are bounded only.", "DESIGN.md §3 C05, §9")
 claim("C06", P,
       "to_sub_topology (compaction, parent remap, new-to-old mapping; any length) and propagate_removal (marks exactly the removal closure in place, survivors keep ids, parents copied; via the traverse client rule) are proved." + BOUNDED,
-      ASSUME + "the traverse client rule is a derived rule over C04's contract (argued, not mechanised); get_subtree / to_subtree / cut_tree / CutByType / CutByFurcationOrder / CutShortTipBranch are bounded only "
+      ASSUME + "the traverse client rule: schema proved in Lean 4 (lean/TraverseRule.lean) over an event model whose steps / end state are obligations of C04 on the real _traverse_dfs; its instantiation at a call site is by inspection; get_subtree / to_subtree / cut_tree / CutByType / CutByFurcationOrder / CutShortTipBranch are bounded only "
       "(all trees <= 6 nodes x all start nodes / removal sets / predicates).", "DESIGN.md §3 C06, §9")
 claim("C07", P,
       "redirect_tree is proved for trees of any size whose root may sit anywhere (path-walk invariants with depth variant): requested node becomes the unique root, path edges reversed, other parents kept, undirected edge set unchanged, "
